@@ -52,7 +52,7 @@ m = {
     "kind_free_text": "Rust harness: stateless DFS explorer with deviation bounding (pvcore::explore), independent MQTT 5 reference codec (pvcore::refcodec), mock transport + strict-waker executor around the real poster Context (pvcheck::world), reference client model (pvcheck::model)"},
  ],
  "checks": [],
- "notes": "see DESIGN.md; known findings in known_findings.json (1 open, 21 fixed by fix: commits in /repo); 219 independently seeded property-breaking changes under seeded/ (all caught by the quick tier of their property, DESIGN section 9) and 32 property-preserving refactorings under benign/ (no alarm); ./check replay <file> re-executes a violation; detection demonstrations: tools/mutants.sh (mutants/*.patch), tools/seedall.sh (seeded/*/patch.diff), tools/regress.sh (reverts each fix commit)",
+ "notes": "see DESIGN.md; known findings in known_findings.json (1 open, 21 fixed by fix: commits in /repo); 236 independently seeded property-breaking changes under seeded/ (all caught by the quick tier of their property, DESIGN section 9) and 32 property-preserving refactorings under benign/ (no alarm); ./check replay <file> re-executes a violation; detection demonstrations: tools/mutants.sh (mutants/*.patch), tools/seedall.sh (seeded/*/patch.diff), tools/regress.sh (reverts each fix commit)",
  "not_applicable": [],
 }
 for i in ids:
